@@ -909,7 +909,7 @@ def build(kind, src, R, c):
             pr["radii"][1] = pr["radii"][0]
         if r.random() < 0.08:
             pr["radii"][2] = pr["radii"][0]
-        if (not src.lat) and r.random() < 0.25:
+        if (not src.lat) and r.random() < _EXTREME_P[0]:
             # the corners of the size domain: needles and pancakes with aspect ratios of several hundred
             big, small = r.uniform(60.0, 100.0), r.uniform(0.2, 0.35)
             pr["radii"] = np.array(r.choice([[big, small, small], [small, big, small], [small, small, big],
@@ -1071,8 +1071,13 @@ _RANK = {"point": 0, "line": 1, "plane": 1, "segment": 2}
 PERTURB_P = 0.3     # share of engineered general-stream placements that get a tiny rigid perturbation
 
 
+_EXTREME_P = [0.25]
+
+
 def gen_pair(rng, kinds, stream):
     """two primitives of the given kinds, the second placed relative to the first. Returns (prims, tag)."""
+    # the iterative point_to_ellipsoid is the function most sensitive to extreme aspect ratios
+    _EXTREME_P[0] = 0.7 if set(kinds) == {"point", "ellipsoid"} else 0.25
     src = Src(rng, stream)
     r = rng
     ra, rb = _RANK.get(kinds[0], 3), _RANK.get(kinds[1], 3)
@@ -1124,6 +1129,15 @@ def gen_pair(rng, kinds, stream):
                 if r.random() < 0.7:
                     B["c"] = B["c"] + src.unit() * 10.0 ** r.uniform(-12.0, -3.0)
                 tag += "/perturbed"
+        if (not src.lat) and {kA, kB} == {"point", "ellipsoid"} and r.random() < 0.6:
+            E, Pt = (A, B) if kA == "ellipsoid" else (B, A)
+            rad = np.asarray(E["radii"], dtype=float)
+            if float(rad.max()) > 50.0 * float(rad.min()):
+                # a needle / pancake: the query point sits beside the long extent, a few thin radii from the surface
+                al = np.array([r.uniform(-0.95, 0.95) if rad[i] > 10.0 * float(rad.min()) else r.choice([-1.0, 1.0]) * r.uniform(1.5, 6.0)
+                               for i in range(3)])
+                Pt["c"] = E["c"] + E["R"].dot(al * rad)
+                tag = "beside-needle"
         pts = _anchor_points(A) + _anchor_points(B)
         if max(np.linalg.norm(p) for p in pts) <= 1000.0:
             break
